@@ -46,6 +46,9 @@ CONSTANTS Weak_NoDupCheckOnInsert,      \* insert without looking at the key ind
           Weak_EvictWithoutBytes,       \* a removal that forgets to decrease txsBytes
           Weak_CacheNotUpdatedOnCommit, \* Update does not push committed txs to the cache
           Weak_RecheckKeepsRejected,    \* a rejected recheck leaves the tx in the pool
+          Weak_VarintBoundaryOffByOne,  \* the reap loops size a tx with a varint-length loop `l > 0x80`
+                                        \* instead of `l >= 0x80`: one byte short at lengths whose
+                                        \* 7-bit shifts hit 128 (128, 16384..16511, 2097152..2113535)
           Weak_NonAtomicAdmission       \* v0: the checks of resCbFirstTime and its addTx are not one
                                         \* critical section (the code before the proposed admission
                                         \* mutex, when callbacks run on the callers' goroutines, i.e.
@@ -53,8 +56,18 @@ CONSTANTS Weak_NoDupCheckOnInsert,      \* insert without looking at the key ind
 
 NoneV == -1                              \* "no filter installed"
 
-\* types.ComputeProtoSizeForTxs([]Tx{tx}): field tag + varint length + bytes
-ProtoSize(n) == n + 1 + (IF n < 128 THEN 1 ELSE IF n < 16384 THEN 2 ELSE 3)
+(* The byte limit of a reap is a fact about the protobuf ENCODING of the reaped txs
+   (tmproto.Data{Txs}): every tx costs 1 tag byte + varint(len) + len bytes, and the varint
+   of the length grows by one byte at 2^7, 2^14, 2^21, ... (types.ComputeProtoSizeForTxs).
+   VarintLen is that rule as the loop the code runs (`for l >= 0x80 { l >>= 7; n++ }`);
+   `weak` is the boundary regression `l > 0x80`.                                          *)
+RECURSIVE VarintLen(_, _)
+VarintLen(l, weak) == IF (weak /\ l > 128) \/ (~weak /\ l >= 128) THEN 1 + VarintLen(l \div 128, weak) ELSE 1
+
+\* the encoded size (the property's and PreCheckMaxBytes' measure)
+ProtoSize(n) == 1 + VarintLen(n, FALSE) + n
+\* the size the reap loops of the implementation account for
+ImplProtoSize(n) == 1 + VarintLen(n, Weak_VarintBoundaryOffByOne) + n
 
 EmptyState(h, pre, post) ==
   [pool |-> << >>, index |-> << >>, bytes |-> 0, cache |-> << >>, height |-> h,
@@ -74,6 +87,8 @@ RECURSIVE SumSizeAt(_, _, _)
 SumSizeAt(pool, ps, k) == IF k = 0 THEN 0 ELSE pool[ps[k]].size + SumSizeAt(pool, ps, k - 1)
 RECURSIVE SumPSizeAt(_, _, _)
 SumPSizeAt(pool, ps, k) == IF k = 0 THEN 0 ELSE ProtoSize(pool[ps[k]].size) + SumPSizeAt(pool, ps, k - 1)
+RECURSIVE SumImplPSizeAt(_, _, _)
+SumImplPSizeAt(pool, ps, k) == IF k = 0 THEN 0 ELSE ImplProtoSize(pool[ps[k]].size) + SumImplPSizeAt(pool, ps, k - 1)
 RECURSIVE SumGasAt(_, _, _)
 SumGasAt(pool, ps, k) == IF k = 0 THEN 0 ELSE pool[ps[k]].gas + SumGasAt(pool, ps, k - 1)
 
@@ -308,13 +323,22 @@ ImplOrder(cfg, s) ==
 TxsAt(pool, ps, k) == [j \in 1..k |-> pool[ps[j]].tx]
 
 FitsBG(pool, ps, k, b, g) == (b < 0 \/ SumPSizeAt(pool, ps, k) <= b) /\ (g < 0 \/ SumGasAt(pool, ps, k) <= g)
+\* ... as the implementation's loop sees it
+ImplFitsBG(pool, ps, k, b, g) == (b < 0 \/ SumImplPSizeAt(pool, ps, k) <= b) /\ (g < 0 \/ SumGasAt(pool, ps, k) <= g)
 FitsN(k, n) == n < 0 \/ k <= n
 
 ReapBG(cfg, s, b, g) ==
   LET ps == ImplOrder(cfg, s)
-      k  == CHOOSE k \in 0..Len(ps) : /\ \A j \in 0..k : FitsBG(s.pool, ps, j, b, g)
-                                      /\ (k = Len(ps) \/ ~FitsBG(s.pool, ps, k + 1, b, g))
+      k  == CHOOSE k \in 0..Len(ps) : /\ \A j \in 0..k : ImplFitsBG(s.pool, ps, j, b, g)
+                                      /\ (k = Len(ps) \/ ~ImplFitsBG(s.pool, ps, k + 1, b, g))
   IN TxsAt(s.pool, ps, k)
+
+\* byte limits "tight" around the exact encoded sizes of the prefixes of the defined order:
+\* exact, +-1, +-2 and minus up to 3 (the number of boundary-length txs a small prefix can hold)
+TightDeltaAll == -3..2
+TightBytes(cfg, pool, D) ==
+  LET ps == PropOrder(cfg, pool)
+  IN {x \in {SumPSizeAt(pool, ps, k) + d : k \in 0..Len(ps), d \in D} : x >= 0}
 
 ReapN(cfg, s, n) ==
   LET ps  == ImplOrder(cfg, s)
